@@ -320,7 +320,7 @@ func init() {
 			}
 			return false
 		}, directedC08), scenarioCases(4800, 96000), churnFamily("C08")),
-		Floors: []string{"revision_creates_checked", "revision_renumbers_checked", "successful_reconciles_checked", "unchanged_template_reconciles", "name_collisions_seen", "rollbacks_after_collision", "rollback_renumber_fault_scenarios", "newest_revision_postconditions_checked", "churn_reconciles", "churn_revisions_with_all_digit_hash_label"}})
+		Floors: []string{"revision_creates_checked", "revision_renumbers_checked", "successful_reconciles_checked", "unchanged_template_reconciles", "name_collisions_seen", "rollbacks_after_collision", "rollback_renumber_fault_scenarios", "newest_revision_postconditions_checked", "churn_reconciles", "churn_revisions_with_all_digit_hash_label", "churn_known_numeric_images_confirmed"}})
 }
 
 var directedC06, directedC08, directedC12 []func(*fam)
